@@ -155,6 +155,7 @@ func checkFilterSelection(c *Ctx, rule string) {
 		return
 	}
 	name := "memory." + helper.Name()
+	helper = p.View(helper) // the per-item criteria may sit in a predicate of their own
 	// (a) candidates drawn by ranging over the item table; (b) loop has no exit besides exhaustion
 	var appendSite ssa.Instruction
 	for _, ci := range allCalls(helper, func(ci ssa.CallInstruction) bool {
@@ -199,11 +200,64 @@ func checkFilterSelection(c *Ctx, rule string) {
 	if nExit == 0 {
 		c.Ok(rule, name+":exhaustive-scan", p.InstrPos(appendSite), "the candidate loop exits only by exhaustion")
 	}
+	// (a') "received before": a message is selected only when its received_at is strictly before the cutoff (or no
+	// cutoff is given) — the comparator SQL spells `received_at < ?`
+	var strictBefore []Edge
+	for _, b := range helper.Blocks {
+		for i := range b.Succs {
+			a, ok := edgeAtom(Edge{b, i})
+			if !ok || !isBoolTrue(a.Y) || a.Op != token.EQL {
+				continue
+			}
+			call, ok := a.X.(*ssa.Call)
+			if !ok {
+				continue
+			}
+			isCut := func(v ssa.Value) bool { return requestFieldOf(v, 0, map[ssa.Value]bool{}) == "Before" }
+			isRecv := func(v ssa.Value) bool { _, f, ok := fieldOfLoad(v); return ok && f == "ReceivedAt" }
+			switch {
+			case calleeIs(call, "time", "Time", "IsZero") && len(call.Call.Args) == 1 && isCut(call.Call.Args[0]):
+				strictBefore = append(strictBefore, Edge{b, i})
+			case calleeIs(call, "time", "Time", "Before") && len(call.Call.Args) == 2 && isRecv(call.Call.Args[0]) && isCut(call.Call.Args[1]):
+				strictBefore = append(strictBefore, Edge{b, i})
+			case calleeIs(call, "time", "Time", "After") && len(call.Call.Args) == 2 && isCut(call.Call.Args[0]) && isRecv(call.Call.Args[1]):
+				strictBefore = append(strictBefore, Edge{b, i})
+			}
+		}
+	}
+	// time.Compare spelled tests: received.Compare(cutoff) < 0
+	for _, b := range helper.Blocks {
+		for i := range b.Succs {
+			a, ok := edgeAtom(Edge{b, i})
+			if !ok {
+				continue
+			}
+			call, ok := a.X.(*ssa.Call)
+			if !ok || !calleeIs(call, "time", "Time", "Compare") || len(call.Call.Args) != 2 {
+				continue
+			}
+			n, isC := intConst(a.Y)
+			if !isC {
+				continue
+			}
+			_, f, okf := fieldOfLoad(call.Call.Args[0])
+			if okf && f == "ReceivedAt" && requestFieldOf(call.Call.Args[1], 0, map[ssa.Value]bool{}) == "Before" && ((a.Op == token.LSS && n == 0) || (a.Op == token.LEQ && n == -1) || (a.Op == token.EQL && n == -1)) {
+				strictBefore = append(strictBefore, Edge{b, i})
+			}
+		}
+	}
+	okB, pathB := p.MustPass(helper, appendSite, strictBefore)
+	if okB && len(strictBefore) > 0 {
+		c.Ok(rule, name+":received strictly before the cutoff", p.InstrPos(appendSite), "a candidate is kept only behind ReceivedAt.Before(cutoff) or cutoff.IsZero()")
+	} else {
+		c.Fail(rule, name+":received strictly before the cutoff", p.InstrPos(appendSite), "a message can be selected without its received_at being strictly before the cutoff (a message received exactly at `before` is cancelled/requeued although SQLite's `received_at < ?` leaves it alone)", pathB...)
+	}
 	// (c) sort + cap
 	okSort := false
-	for _, ci := range allCalls(helper, func(ci ssa.CallInstruction) bool { return calleeIs(ci, "sort", "", "Slice") || calleeIs(ci, "sort", "", "SliceStable") }) {
-		for _, t := range funcValueTargets(ci.Common().Args[1], 0) {
-			if keys, ok := sortKeys(t); ok && strings.Join(keys, ",") == "ReceivedAt DESC,ID DESC" {
+	for _, ci := range allCalls(helper, func(ci ssa.CallInstruction) bool { _, ok := sortComparatorArg(ci); return ok }) {
+		cmpArg, _ := sortComparatorArg(ci)
+		for _, t := range funcValueTargets(cmpArg, 0) {
+			if keys, ok := sortKeys(p.View(t)); ok && strings.Join(keys, ",") == "ReceivedAt DESC,ID DESC" {
 				okSort = true
 			}
 		}
@@ -215,6 +269,14 @@ func checkFilterSelection(c *Ctx, rule string) {
 			if sl, ok := ins.(*ssa.Slice); ok && sl.High != nil && sl.Low == nil {
 				if f := requestFieldOf(sl.High, 0, map[ssa.Value]bool{}); f == "Limit" {
 					okCap = true
+				}
+				// candidates[:min(len(candidates), limit)]
+				if mc := builtinCall(sl.High, "min"); mc != nil {
+					for _, a := range mc.Call.Args {
+						if f := requestFieldOf(a, 0, map[ssa.Value]bool{}); f == "Limit" {
+							okCap = true
+						}
+					}
 				}
 			}
 		}
